@@ -12,11 +12,11 @@ import k2
 PROJECTION = {
     "C02": None,
     "C05": {"stats", "inv"},
-    "C09": {"iter", "riter", "ltfind", "ltcount", "ltat", "ltequalrange", "lteraseit", "ltinsert", "ltindex", "lterase"},
+    "C09": {"iter", "riter", "ltfind", "ltcount", "ltat", "ltequalrange", "lteraseit", "ltinsert", "ltindex", "lterase", "ltapi"},
     "C10": {"stats", "setmlf", "setmhp", "rehash", "reserve", "insert", "ioa", "upsert", "uprase", "ltinsert", "ltindex", "inv"},
     "C11": None,
     "C12": {"read", "write", "stats", "iter", "inv"},
-    "C17": {"find", "updatefn", "erasefn", "upsert", "uprase", "insert", "ioa", "update", "erase", "findv"},
+    "C17": {"find", "updatefn", "erasefn", "upsert", "uprase", "insert", "ioa", "update", "erase", "findv", "api"},
 }
 
 
